@@ -81,7 +81,8 @@ FullSchedule(cfg) ==
      ObsDerived("constraint_evals", cfg.nc * D, FALSE,
                 {<<"degree_bits", 1>>} \cup AtomsOf("public_input", cfg.npi - cfg.npifree), TRUE),
      Sq("stark_alphas", cfg.nc),
-     Obs("quotient_polys_cap", CapLen(cfg)),
+     \* (a STARK whose constraints have degree 0 has no quotient polynomial: cap and openings are absent)
+     Obs("quotient_polys_cap", IF cfg.nquot > 0 THEN CapLen(cfg) ELSE 0),
      Sq("stark_zeta", D),
      \* observe_openings: zeta batch = local, auxiliary, quotient; next batch = next, auxiliary next
      Obs("openings.local_values", cfg.ncols * D), Obs("openings.auxiliary_polys", cfg.naux * D),
